@@ -3,7 +3,7 @@
    iteration order) and in the set of ordering constraints.  Candidate sets are kept as their intersection (the code
    keeps the family of sets and intersects on use; the family only matters for the heuristic). *)
 From Coq Require Import List Bool ZArith Lia.
-From V Require Import C01.Model C06.Model.
+From V Require Import C01.Model C06.Model C06.LookAhead.
 Import ListNotations.
 Open Scope Z_scope.
 
@@ -38,12 +38,24 @@ Fixpoint map_nodes (fuel : nat) (sgn : Z) (cand : list (Z * list Z)) (mp : mappi
         end) (cand_of cand sgn)
   end.
 
-(* find_isomorphisms (l.480-526) without the look-ahead filter: colour candidates, any start node *)
-Definition initial_candidates : list (Z * list Z) := map (fun u => (u, colour_candidates P G u)) (keys P).
+(* find_isomorphisms (l.480-526), started from any family of candidate sets *)
+Definition initial_from (base : Z -> list Z) : list (Z * list Z) := map (fun u => (u, base u)) (keys P).
 
-Definition find_isomorphisms : list mapping :=
+Definition find_isomorphisms_from (base : Z -> list Z) : list mapping :=
   match keys P with
   | [] => [[]]
-  | _ :: _ => map_nodes (S (List.length (keys P))) (choose (keys P) initial_candidates) initial_candidates [] (keys P)
+  | _ :: _ => map_nodes (S (List.length (keys P))) (choose (keys P) (initial_from base)) (initial_from base) [] (keys P)
   end.
+
+(* colour classes only *)
+Definition initial_candidates : list (Z * list Z) := initial_from (colour_candidates P G).
+Definition find_isomorphisms : list mapping := find_isomorphisms_from (colour_candidates P G).
+
+(* colour classes intersected with the look-ahead candidates (an empty look-ahead set is not intersected, l.511-513) *)
+Definition la_base (u : Z) : list Z :=
+  match lookahead_candidates P G u with
+  | [] => colour_candidates P G u
+  | la => filter (fun x => zmem x la) (colour_candidates P G u)
+  end.
+Definition find_isomorphisms_la : list mapping := find_isomorphisms_from la_base.
 End Search.
